@@ -150,6 +150,27 @@ def _foreign_bytes(case):
     return writer.write(plans.expand_plan(plan))
 
 
+def _dict_encoded_text_columns(case):
+    """{name: dictionary size} of the text columns whose chunks all consist of dictionary-encoded data pages only."""
+    plan = case["plan"]
+    out = {}
+    for c in case["cols"]:
+        if c["kind"] != "text":
+            continue
+        size, ok_ = 0, True
+        for rg in plan["row_groups"]:
+            cp = (rg.get("chunks") or {}).get(c["name"]) or {}
+            pages = cp.get("pages") or []
+            vals = rg["data"].get(c["name"], [])
+            if not pages or not vals or any(p.get("encoding") not in ("PLAIN_DICTIONARY", "RLE_DICTIONARY") for p in pages):
+                ok_ = False
+                break
+            size = max(size, len({v for v in vals if v is not None}) + ((cp.get("dict_pad") or {}).get("n", 0)))
+        if ok_ and size:
+            out[c["name"]] = size
+    return out
+
+
 def norm_dtype(x):
     try:
         if isinstance(x, str) and x == "category":
@@ -203,6 +224,14 @@ def run_case(case):
         if rd.get("categories") and claimed_categories:
             catarg = list(claimed_categories) if rd["categories"] == "list" else dict(claimed_categories)
             kw["categories"] = catarg
+        elif rd.get("categories") and src == "foreign":
+            # columns that are not categorical by default but can be asked for as such: text columns of which every chunk
+            # is dictionary-encoded throughout
+            sizes = _dict_encoded_text_columns(case)
+            if sizes:
+                catarg = list(sizes) if rd["categories"] == "list" else dict(sizes)
+                kw["categories"] = catarg
+                labels.append("categories_asked_for_plain_columns")
         if rd.get("index") is False:
             kw["index"] = False
         cols = None
